@@ -74,6 +74,8 @@ SCHEDS = [
     {"policy": "pct", "d": 3, "horizon": 1500, "preempt": "line"},
     {"policy": "rr", "q": 3, "preempt": "line"},
     {"policy": "random", "p": 0.2, "preempt": "sync"},
+    {"policy": "random", "p": 0.5, "preempt": "sync"},
+    {"policy": "pct", "d": 2, "horizon": 150, "preempt": "sync"},
 ]
 
 _ENUM = None
@@ -153,7 +155,8 @@ def gen_plan(rng, tier, index):
     if plan["kind"] != "cut" or index >= 4 * len(cases):
         if rng.random() < 0.5:
             # fault: freshly started threads (accept/connect/receiver/select threads, API callers) frozen for a while
-            sched["stall"] = {"q": 0.25, "J": 40, "durs": [0.05, 0.5, 2.0], "max": 3}
+            sched["stall"] = {"q": rng.choice([0.1, 0.25, 0.4]), "J": rng.choice([8, 40, 200, 1000]),
+                              "durs": [0.05, 0.5, 2.0], "max": 3}
     plan["sched"] = sched
     return plan
 
